@@ -279,8 +279,12 @@ def replay_in_fresh_process(prop, path):
     Returns (reproduced: bool, output)."""
     env = dict(os.environ)
     env.pop("_VERIF_REEXEC", None)
-    p = subprocess.run([PY, os.path.join(VERIF, "check"), prop, "--replay", path], capture_output=True, text=True, env=env, timeout=600)
-    return ("VIOLATION" in p.stdout or "KNOWN-FINDING" in p.stdout), p.stdout[-2000:] + p.stderr[-2000:]
+    p = subprocess.run([PY, os.path.join(VERIF, "check"), prop, "--replay", path], capture_output=True, text=True, env=env, timeout=900)
+    if "VIOLATION" in p.stdout or "KNOWN-FINDING" in p.stdout:
+        return True, p.stdout[-2000:]
+    if "OK property=" in p.stdout:
+        return False, p.stdout[-2000:] + p.stderr[-2000:]
+    return None, f"[replay exited {p.returncode} without a verdict]\n" + p.stdout[-1000:] + p.stderr[-2000:]
 
 
 # --------------------------------------------------------------------------
@@ -359,9 +363,22 @@ def drive(mod, tier, seed):
         from concurrent.futures import ThreadPoolExecutor
 
         def _confirm(sig):
-            ok1, out1 = replay_in_fresh_process(prop, paths[sig])
-            ok2, out2 = (ok1, out1) if not ok1 else replay_in_fresh_process(prop, paths[sig])
-            return sig, (ok1 and ok2), out1
+            # two reproductions in fresh processes; a replay process that dies
+            # without a verdict (killed / starved on an overloaded machine) is
+            # retried, a replay that runs and finds nothing is not
+            oks, out1 = 0, ""
+            for attempt in range(4):
+                try:
+                    ok, out1 = replay_in_fresh_process(prop, paths[sig])
+                except subprocess.TimeoutExpired:
+                    ok, out1 = None, "replay timed out"
+                if ok:
+                    oks += 1
+                    if oks == 2:
+                        return sig, True, out1
+                elif ok is False:
+                    return sig, False, out1
+            return sig, False, out1
 
         with ThreadPoolExecutor(nworkers()) as tp:
             for sig, ok, out1 in tp.map(_confirm, sorted(by_sig)):
